@@ -506,7 +506,7 @@ def run(ctx):
                     idx += 1
                     if not ctx.mine(idx):
                         continue
-                    if (idx & 0x1f) == 0 and ctx.expired():
+                    if ((idx // ctx.nshards) & 0x3) == 0 and ctx.expired():      # counted per shard: idx itself is filtered by mine()
                         done = False
                         break
                     case = dict(family='P1', scenario=name, pX=pX, pY=pY, plan=[['EDIT'], ['X', k], ['Y', None], ['X', None]])
@@ -519,7 +519,7 @@ def run(ctx):
                     idx += 1
                     if not ctx.mine(idx):
                         continue
-                    if (idx & 0x1f) == 0 and ctx.expired():
+                    if ((idx // ctx.nshards) & 0x3) == 0 and ctx.expired():      # counted per shard: idx itself is filtered by mine()
                         done = False
                         break
                     case = dict(family='P2', scenario=name, pX=pX, pY=pY, plan=[['Y', k], ['EDIT'], ['X', None], ['Y', None]])
@@ -546,7 +546,7 @@ def run(ctx):
                         idx += 1
                         if not ctx.mine(idx):
                             continue
-                        if (idx & 0x1f) == 0 and ctx.expired():
+                        if ((idx // ctx.nshards) & 0x3) == 0 and ctx.expired():      # counted per shard: idx itself is filtered by mine()
                             done6 = False
                             break
                         case = dict(family='P6', scenario=name, pX=sc['probes'][0], pY=pY, preload=False,
@@ -575,7 +575,7 @@ def run(ctx):
                             idx += 1
                             if not ctx.mine(idx):
                                 continue
-                            if (idx & 0x1f) == 0 and ctx.expired():
+                            if ((idx // ctx.nshards) & 0x3) == 0 and ctx.expired():      # counted per shard: idx itself is filtered by mine()
                                 done5 = False
                                 break
                             case = dict(family='P5', scenario=name, pX=sc['probes'][0], pY=pY,
@@ -607,7 +607,7 @@ def run(ctx):
                         idx += 1
                         if not ctx.mine(idx):
                             continue
-                        if (idx & 0x1f) == 0 and ctx.expired():
+                        if ((idx // ctx.nshards) & 0x3) == 0 and ctx.expired():      # counted per shard: idx itself is filtered by mine()
                             done4 = False
                             break
                         check_plan(ctx, dict(family='P4', scenario=name, pX=pX, pY=pY,
@@ -623,6 +623,7 @@ def run(ctx):
         rnd = ctx.rnd
         if ctx.tier == 'thorough' and done:
             done34 = True
+            ctx.reserve(0.8)          # the sampled family below keeps a fifth of the budget
             for name in names:
                 sc = SCEN[name]
                 nX, nY0, _ = calib[name]
@@ -635,7 +636,7 @@ def run(ctx):
                             idx += 1
                             if not ctx.mine(idx):
                                 continue
-                            if (idx & 0x1f) == 0 and ctx.expired():
+                            if ((idx // ctx.nshards) & 0x3) == 0 and ctx.expired():      # counted per shard: idx itself is filtered by mine()
                                 done34 = False
                                 break
                             check_plan(ctx, dict(family='P3', scenario=name, pX=pX, pY=pY,
@@ -646,6 +647,9 @@ def run(ctx):
                             idx += 1
                             if not ctx.mine(idx):
                                 continue
+                            if ((idx // ctx.nshards) & 0x3) == 0 and ctx.expired():
+                                done34 = False
+                                break
                             check_plan(ctx, dict(family='P4', scenario=name, pX=pX, pY=pY,
                                                  plan=[['Y', k2], ['EDIT'], ['X', k1], ['Y', None], ['X', None]]))
                     if not done34:
@@ -653,6 +657,7 @@ def run(ctx):
                 if not done34:
                     break
             ctx.stratum('P3P4-around-state-changes', exhaustive=done34)
+            ctx.release()
         per = SAMPLES_P34[ctx.tier] // ctx.nshards + 1
         for name in names:
             sc = SCEN[name]
